@@ -66,7 +66,9 @@ class C10(Prop):
         T = T or rng.choice((1, 2, 3, 5, 8, 13, 40, 200))
         C = rng.choice((1, 1, 2, 3))
         dkind = rng.choice(("const", "bit", "small", "wide", "mixed", "small", "wide"))
-        den = rng.choice((1, 1, 2, 16))
+        # amplitudes down to ~1e-7 of a unit (powers of two: exact in float32): the normalised statistics are scale
+        # free, a guard on the raw central sums must not treat low-amplitude channels as constant
+        den = rng.choice((1, 1, 2, 16, 2 ** 20, 2 ** 24))
         kind = rng.choice(("push", "push", "merge")) if T >= 2 else "push"
         case = {"T": T, "C": C, "dkind": dkind, "den": den, "dseed": rng.randrange(1 << 30)}
         if kind == "push":
